@@ -548,6 +548,10 @@ def apply_op(ds, ref, op, pool, ys, fns, rng):
             out = ds.cache(lazy=False)
         if R.has_items and keys_unique(R.keys):
             return out, Ref(list(R.vals), list(R.keys))
+        if R.keys is not None and keys_unique(R.keys):
+            # the input need not offer items() (e.g. a multi-worker prefetch refuses it) and the snapshot is then key-less; if it does offer
+            # them, the snapshot may expose keys - which then have to be these (optional capability: never demanded, checked when present)
+            return out, Ref(list(R.vals), list(R.keys), has_keys=False, has_items=False)
         return out, Ref(list(R.vals), None)
     if k == 'catch':
         out = ds.catch()
